@@ -170,7 +170,16 @@ static bool gen_one(qop *op, gctx c) {
 		for (int i = 0; i < nq; i++) if ((Q[i].kind == QK_SERIAL || Q[i].kind == QK_CONC) && (!Q[i].inactive || G->suspend_inactive) && Q[i].retarget_to < 0) cand[n++] = i;
 		if (!n) { op->kind = OP_PAUSE; op->depth = 1; return true; }
 		op->q = (c.from_q >= 0 && (Q[c.from_q].kind == QK_SERIAL || Q[c.from_q].kind == QK_CONC) && !Q[c.from_q].inactive && Q[c.from_q].retarget_to < 0 && g_chance(70, 100)) ? c.from_q : cand[g_n((uint32_t)n)];
-		op->depth = g_chance(15, 100) ? g_range(1, G->suspend_depth_max) : g_range(1, 3);
+		op->depth = g_chance(G->suspend_depth_max >= 64 ? 35 : 15, 100) ? g_range(1, G->suspend_depth_max) : g_range(1, 3);
+		// the resumes may come in two instalments; what is still outstanding in between is biased to the values at
+		// which the inline counter and the side counter trade (the counter moves in halves of 64)
+		op->split = 0;
+		if (op->depth >= 2 && g_chance(1, 2)) {
+			static const int edge[] = { 1, 31, 32, 33, 63, 64, 65, 96 };
+			int rem = g_chance(1, 2) ? edge[g_n(8)] : g_range(1, op->depth - 1);
+			if (rem >= op->depth) rem = g_range(1, op->depth - 1);
+			op->split = op->depth - rem;
+		}
 		op->body_arg = (int)g_n(3);   // 0: resume inline, 1: resume from an async item on a global queue, 2: inline
 		gctx cc = c; cc.noblock = 1; cc.depth = c.depth + 1;
 		gen_ops(&op->child, &op->nchild, g_range(0, 3), cc);   // ops executed while suspended
@@ -325,7 +334,7 @@ static void render_ops(qop *ops, int n, int ind) {
 		if (op->idx >= 0 && !op_on(op->idx)) continue;
 		h_sample("%*s#%d %s", ind, "", op->idx, opnames[op->kind]);
 		if (op->kind == OP_PAUSE) h_sample(" %dus", op->depth);
-		else if (op->kind == OP_SUSPEND) h_sample("(q%d) x%d resume=%s", op->q, op->depth, op->body_arg == 1 ? "async" : "inline");
+		else if (op->kind == OP_SUSPEND) { h_sample("(q%d) x%d resume=%s", op->q, op->depth, op->body_arg == 1 ? "async" : "inline"); if (op->split) h_sample(" (%d of them first)", op->split); }
 		else if (op->kind == OP_ACTIVATE) h_sample("(q%d)", op->q);
 		else if (op->kind == OP_RETARGET) h_sample("(q%d -> q%d)", op->q, Q[op->q].retarget_to);
 		else if (op->kind == OP_APPLY) h_sample("(%d, %s%d) items %d..%s", op->apply_n, op->apply_auto ? "AUTO/q" : "q", op->q, op->item, op->body == B_NEST ? " body=nest(iteration 0)" : "");
@@ -552,18 +561,19 @@ static void prep_item(qitem *it) {
 	}
 }
 
-static void do_resumes(qop *op) {
+static void do_resumes_n(qop *op, int n) {
 	qnode *qn = &Q[op->q];
-	for (int i = 0; i < op->depth; i++) {
+	for (int i = 0; i < n; i++) {
 		qn->susp_ret_minus_res_call--;
 		if (qn->susp_ret_minus_res_call == 0) qn->window_open = 0;
 		h_log("call resume q%d", op->q);
 		dispatch_resume(qn->q);
 		h_log("ret resume q%d", op->q);
-		if (i + 1 < op->depth && (i & 7) == 0) sim_point();
+		if (i + 1 < n && (i & 7) == 0) sim_point();
 	}
 	h_progress();
 }
+static void do_resumes(qop *op) { do_resumes_n(op, op->depth - op->split); }
 static void resume_fn(void *ctx) { do_resumes((qop *)ctx); }
 
 static void run_one(qop *op, int client, qitem *from) {
@@ -599,6 +609,7 @@ static void run_one(qop *op, int client, qitem *from) {
 			h_log("ret suspend q%d D=%d onq=%d", op->q, qn->susp_ret_minus_res_call, onq);
 			if (i + 1 < op->depth && (i & 7) == 0) sim_point();
 		}
+		if (op->split) { do_resumes_n(op, op->split); sim_sleep_ns((uint64_t)(20 + 10 * (op->split & 7)) * USEC); }   // still suspended: depth - split outstanding
 		run_ops(op->child, op->nchild, client, from);
 		if (op->body_arg == 1) dispatch_async_f(dispatch_get_global_queue(0, 0), op, resume_fn);
 		else do_resumes(op);
